@@ -375,7 +375,7 @@ class Server(Acceptor):
         try:
             self.ixes[ca].serviceReceives()
         except OSError as ex:
-            logger.error("Closing incoming socket on %s.\n%s\n", ix.cs.getpeername(), ex)
+            logger.error("Closing incoming socket on %s.\n%s\n", ca, ex)
             self.removeIx(ca=ca)  # also closes ix
 
 
@@ -387,7 +387,7 @@ class Server(Acceptor):
             try:
                 ix.serviceReceives()
             except OSError as ex:
-                logger.error("Closing incoming socket on %s.\n%s\n", ix.cs.getpeername(), ex)
+                logger.error("Closing incoming socket on %s.\n%s\n", ca, ex)
                 self.removeIx(ca=ca)  # also closes ix
 
 
@@ -747,7 +747,7 @@ class Remoter(tyming.Tymee):
                 self.cutoff = True  # this signals need to close/reopen connection
                 return bytes()  # data empty
             else:  # unexpected error
-                logger.error("Unexpected error on receive on %s.\n%s\n", self.cs.getpeername(), ex)
+                logger.error("Unexpected error on receive on %s.\n%s\n", self.ca, ex)
                 raise  # re-raise
 
         if data:  # connection open
@@ -990,7 +990,7 @@ class RemoterTls(Remoter):
                 self.cutoff = True  # this signals need to close/reopen connection
                 return bytes()  # data empty
             else:
-                logger.error("Unexpected error on receive on %s.\n%s\n", self.cs.getpeername(), ex)
+                logger.error("Unexpected error on receive on %s.\n%s\n", self.ca, ex)
                 raise  # re-raise
 
         if data:  # connection open
